@@ -1452,6 +1452,50 @@ fn c08_snapshot_refresh_copies_ram() {
 }
 
 // =============================================================================================
+// C11 - every T-state the machine spends reaches the tape
+// =============================================================================================
+
+// @harness
+// @prop C11 C04
+// @tier quick
+// @timeout 900
+// @fn ZXController::wait_mreq; ZXController::wait_no_mreq; ZXController::wait_internal; ZXController::do_contention; Z80Bus::read/write (defaults); Z80Bus::wait_loop (default); Tap::process_clocks (countdown)
+// @sym machine, latch, frame time, address, cycle flavour (mreq / no-mreq / read / write / 1..7 single internal T-states), cycle length
+// @assert a playing tape in the middle of a pulse sees exactly the T-states the machine spent in the bus cycle - cycle length PLUS every ULA contention delay: pulse time left afterwards == time left before - elapsed frame time (so contention can never stretch a pulse beyond the step granularity)
+// @bound one bus cycle; tape 5000 T-states away from its next edge
+// @stub ZXScreen::process_clocks -> no-op
+// @replay solver-only
+#[kani::proof]
+#[kani::unwind(10)]
+#[kani::stub(crate::zx::video::screen::ZXScreen::process_clocks, noop_screen_clocks)]
+fn c11_every_bus_wait_reaches_the_tape() {
+    let (mut c, _latch, t) = any_controller_at(false, false);
+    c.tape = crate::zx::tape::verif_hooks_tap::playing_tape_with_delay(5000).into();
+    let addr: u16 = kani::any();
+    let clk: usize = kani::any();
+    kani::assume(clk >= 1 && clk <= 7);
+    let flavour: u8 = kani::any();
+    kani::assume(flavour < 5);
+    match flavour {
+        0 => c.wait_mreq(addr, clk),
+        1 => c.wait_no_mreq(addr, clk),
+        2 => {
+            let _ = c.read(addr, clk);
+        }
+        3 => c.write(addr, kani::any(), clk),
+        _ => c.wait_loop(addr, clk),
+    }
+    let spent = elapsed(&c, t);
+    let left = match &c.tape {
+        crate::zx::tape::ZXTape::Tap(tp) => crate::zx::tape::verif_hooks_tap::delay_left(tp),
+        _ => 0,
+    };
+    kani::assert(left + spent == 5000, "c11.bus.tape_time_equals_machine_time");
+    kani::cover!(spent > clk && flavour == 1, "contended no-mreq cycle");
+    kani::cover!(spent > 20 && flavour == 4, "contended run of single T-states");
+}
+
+// =============================================================================================
 // thorough-tier variants
 // =============================================================================================
 
